@@ -24,7 +24,10 @@ BITS = {
     13: "kf-c03-paren-entry-commit",
 }
 SPEC = 0                      # mask 0: the specification (RFC + documented leniencies, names as maximal tokens)
-ALL = (1 << 14) - 2
+# deviation 8 (byte-string member key, a BRIDGE rejection that does not apply inside the unconverted type of #6.<type>)
+# is not context-free; it is recognised by the bridge's own message together with the bridge model's verdict instead
+CLASSIFY_BITS = [k for k in (1, 2, 3, 4, 5, 6, 7, 9, 10, 11, 12, 13)]
+ALL = sum(1 << k for k in CLASSIFY_BITS)
 
 # bridge rejections that are about literal VALUES or duplicate definitions (properties C07 / C12), not about the grammar
 SEMANTIC_OK = ("Invalid unsigned integer", "Invalid integer", "Invalid float", "Invalid hexfloat", "Invalid base16 encoding",
@@ -410,6 +413,11 @@ PROBES = [
     "a = -", "a = -a", "a = - 1", "a = 1.", "a = .5", "a = 1e", "a = 0x", "a = 0b2", "a = 00", "a = 1_000", "é = int", "a = é", "a = \"é\"",
     "a = 'é'", ";é\na = int", "a = int ; é", "a = b .size (1..2)", "a = b .size 1..2", "a = 1 .. 2 .. 3", "a = b .lt 3 .gt 1",
     "a = b .b64u-sloppy c", "a = b .b64u c", "a = b .hexlc c", "a = b .abnfb c", "a = b .bitfield c",
+    "a = [((uint) / x.y)]", "a = [((a) .size 3)]", "a = [((a) .size 3) .lt 4]", "a = [(((a) / b))]", "a = [((a) / b) => c]",
+    "a = [((a) / b) .size 3 => c]", "g //= ((uint) / x)", "g = ? ((a) / b)", "a = [(a) .size 3 => b]", "a = [((a))]", "a = [((a)) / b]",
+    "a = #6.<{'k': 1}>(x)", "a = #7.<'a\\qb'>", "a = #6.<\"\\ud800\">(tstr)", "a = #6.<[h'zz']>(x)", "a = #6.<99999999999999999999999>(x)",
+    "a = {$a: 1}", "a = {$a<b>: 1}", "a = [a: x / h\"ab\" => c]", "a = [a: x / h'00' => c]", "a = [a: x / H'00' => c]", "a = [*0]", "a = 0b1 = 2",
+    "a = [1p3]", "a = [0x1p3]", "a = [0x1.8p3]", "a = -0x1p-2 b = 1", "g = (#6.1 : 1)", "a = b .abnfb\nx..y", "a = b .hexlc x..y",
 ]
 
 
@@ -531,7 +539,7 @@ def variant(orc, mask, texts):
     return common.run_tool(orc, ["V\t%d\t%s" % (mask, hx(t)) for t in texts])
 
 
-def judge(res, orc, rows, findings, stats):
+def judge(res, orc, rows, findings, stats, hist):
     """compare; returns list of divergent rows needing classification"""
     div = []
     for r in rows:
@@ -570,6 +578,18 @@ def judge(res, orc, rows, findings, stats):
                 res.violation("the bridge rejected %r (%s) but the bridge model builds an AST" % (t, payload[:80]), dict(rep, kind="bridge-reject", msg=payload))
                 continue
         # 3. language
+        if verdict == "semantic" and "Invalid member key value" in payload and r["model_shape"] == "Err semantic":
+            stats["language-compared"] += 1
+            if r["spec"] == "Y":
+                fk = [f for f in findings if f["id"] == "kf-c03-bytes-member-key"]
+                if fk:
+                    res.known(fk[0]); hist["kf-c03-bytes-member-key"] = hist.get("kf-c03-bytes-member-key", 0) + 1
+                else:
+                    res.violation("the bridge rejects the byte-string member key in %r, which the ABNF derives, and this is not an open finding" % t,
+                                  dict(rep, kind="language-unlisted"))
+            else:
+                stats["language-agree-N"] += 1
+            continue
         if verdict == "semantic" and literal_semantic(payload):
             stats["semantic-skipped"] += 1        # literal value / duplicate definition: C07 / C12, not a grammar question
             continue
@@ -600,13 +620,15 @@ def classify(res, orc, div, findings, stats, hist):
                       % ("accepts" if r["crate"] == "Y" else "rejects", t, "derives" if r["spec"] == "Y" else "does not derive"),
                       {"kind": "language", "text_hex": hx(t), "text": t, "crate": r["crate"], "spec": r["spec"], "all_deviations": v})
     # attribution: which single switch explains the text (several may); "combination" when only several together do
+    stats["explained-by-known-deviations"] = stats.get("explained-by-known-deviations", 0) + len(explained)
+    explained = explained[:400] if res.tier == "quick" else explained     # attribution is evidence only; quick attributes a prefix
     etexts = [r["text"] for r in explained]
-    single = {k: variant(orc, 1 << k, etexts) for k in BITS}
+    single = {k: variant(orc, 1 << k, etexts) for k in CLASSIFY_BITS}
     for i, r in enumerate(explained):
-        names = [BITS[k] for k in BITS if single[k][i] == r["crate"]]
+        names = [BITS[k] for k in CLASSIFY_BITS if single[k][i] == r["crate"]]
         if not names:
             # find which switches are necessary: switching one off breaks the agreement
-            need = [k for k in BITS if variant(orc, ALL & ~(1 << k), [r["text"]])[0] != r["crate"]]
+            need = [k for k in CLASSIFY_BITS if variant(orc, ALL & ~(1 << k), [r["text"]])[0] != r["crate"]]
             names = [BITS[k] for k in need] or ["combination"]
             hist["combination"] = hist.get("combination", 0) + 1
         for n in names:
@@ -666,6 +688,24 @@ def control_table(res, drv, orc):
                           {"kind": "control-table", "name": n}, no_input=True)
 
 
+TOKEN_CLASSES = ["uint", "occur", "number (radix-float deviation on)", "id (id-runs, dollar deviations on)", "text (control-chars, escapes on)",
+                 "bytes (raw content, case-sensitive qualifier on)", "blanks and comments as documents (control-chars on)",
+                 "control operators (probe list)", "text / bytes escape probes"]
+
+
+def token_sweeps(res, orc, tier):
+    """PEG token rule vs ABNF token rule on every string up to length n over the class alphabet (Tokens.v), run in the
+    extracted oracle (the Coq theorems C03_*_lang_eq_upto3 state the same for length <= 3)"""
+    n = 5 if tier == "quick" else 6
+    lines = ["W\t%d\t%d" % (k, n) for k in range(len(TOKEN_CLASSES))]
+    out = common.run_tool(orc, lines, multi=True)
+    bad = [TOKEN_CLASSES[k] for k, o in enumerate(out) if o != "Y"] if len(out) == len(lines) else ["(oracle crashed)"]
+    for b in bad:
+        res.violation("token class %s: the rule of the grammar translated from cddl.pest and the ABNF rule (with the stated deviations) differ on some string of length <= %d over the class alphabet"
+                      % (b, n), {"kind": "token-sweep", "class": b, "bound": n}, no_input=True)
+    return {"bound": n, "classes": TOKEN_CLASSES, "all_equal": not bad}
+
+
 def run(tier, seed):
     import time
     res = Result(PROP, tier, seed)
@@ -686,6 +726,8 @@ def run(tier, seed):
     replay_findings(res, drv, orc, findings)
     control_table(res, drv, orc)
     tm["replay-findings"] = round(time.time() - t0, 1); t0 = time.time()
+    tok = token_sweeps(res, orc, tier)
+    tm["token-sweeps"] = round(time.time() - t0, 1); t0 = time.time()
     cases, used, used_x = gen_texts(rng, tier, wide=not proved)
     seen, uniq = set(), []
     for c, t in cases:
@@ -697,7 +739,7 @@ def run(tier, seed):
     stats = {k: 0 for k in ("tree_identical", "accepted", "shape_identical", "rejected-syntax", "rejected-semantic", "semantic-skipped",
                             "language-compared", "language-agree-Y", "language-agree-N", "combination")}
     hist = {}
-    div = judge(res, orc, rows, findings, stats)
+    div = judge(res, orc, rows, findings, stats, hist)
     classify(res, orc, div, findings, stats, hist)
     tm["classify"] = round(time.time() - t0, 1); t0 = time.time()
     cls = {}
@@ -706,7 +748,7 @@ def run(tier, seed):
         e["n"] += 1
         e["accepted"] += 1 if r["impl_ast"].startswith("Ok") else 0
     # vm_compute slice: guards the extraction step
-    short = [t for c, t in uniq if len(t) <= 24 and c in ("probe", "abnf-sample", "char-edit", "token-edit")]
+    short = [t for c, t in uniq if len(t) <= 18 and c in ("probe", "abnf-sample", "char-edit", "token-edit", "slot-fill")]
     sl = rng.sample(short, min(len(short), 34))
     exprs = []
     for t in sl:
@@ -742,6 +784,7 @@ def run(tier, seed):
         "divergences_by_finding": hist,
         "language_divergences": len(div),
         "vm_compute_slice": len(exprs),
+        "token_sweeps": tok,
         "samples": [{"class": c, "text": t, "impl": r["impl_ast"][:120], "spec": r["spec"]} for (c, t), r in list(zip(uniq, rows))[len(PROBES):len(PROBES) + 8]],
     })
     res.assumptions = ["pest's parsing semantics are modelled by hand (Grammar/PegRun.v); validated on every run by comparing complete pair trees",
